@@ -104,7 +104,7 @@ func c12GenBT(rng *zz.RNG, s *zz.Session, thorough bool) []string {
 			}
 		}
 	}
-	// header fields cut inside (bytes.Reader.Read returns short reads without an error)
+	// header fields cut inside: every prefix of a small valid file
 	{
 		idx := NewIndexer(432000, 432010, 3)
 		data, _ := idx.MarshalBinary()
@@ -140,12 +140,6 @@ func TestVerifC12(t *testing.T) {
 	defer r.Close()
 	r.Print = func(op string, res c12.Result) string {
 		if res.Class == "ok" || res.Class == "err" {
-			// a file that ends inside the capacity field (39..45 bytes): bytes.Reader.Read hands out the bytes that are
-			// left, so the pinned decoder may take them for a complete field; another proposed repair (io.ReadFull, for
-			// the truncation property) makes that an error.  Neither is a crash: the answer is canonicalised.
-			if n := len(strings.Fields(op)[1]) / 2; n > 38 && n < 46 {
-				return "cut-capacity"
-			}
 			return res.Answer
 		}
 		return res.Class
